@@ -375,5 +375,11 @@ fn main() {
     run.ev.set("samples", json!([{"config": "k=2, 2x2 sketch, letters in classes [0,0,1,3]", "stream": [0, 1, 1, 2, 3, 3, 3, 0], "checked": "at every prefix: size/distinctness/membership of iter(), missing-element bound with E from a twin sketch, no panic (debug assertions on)"}]));
     run.ev.set("rule", json!("every stream over 4 letters up to the length, every prefix, k in 1..3, sketches 1x1, 2x1, 1x2, 2x2 under every assignment of letters to collision classes (classes found through the public HashIterBuilder) and a verified collision-free 64x4 sketch"));
     run.ev.assume("CMSHeap fixes its sketch hasher to SipHash with fixed keys; collisions are forced through the element's Hash impl");
+    // the Extend implementations deliver the same streams: extend(chunk1); extend(chunk2) == add loop
+    let (xp_cases, xp_viols) = checks::extendpaths::cmsheap(if thorough { 6 } else { 5 });
+    for v in xp_viols {
+        run.violation(v);
+    }
+    run.ev.set("extend_path_cases", serde_json::json!(xp_cases));
     run.finish();
 }
